@@ -842,6 +842,28 @@ def _run_rendering(case, out):
                 'mark_iff_false', f'C12/mark_missing/{feat}{part}{extra}',
                 f'false result rendered without any mark ({rep}, {verb}): {text[-300:]!r}'))
 
+    # ---- (a') statistics by labels: in every table that lists label groups with their shares of
+    # successes and failures, the highlighted rows are exactly the groups with a failure
+    if kind == 'stats_bylabels' and not failed_eval and rep in ('table', 'fulltable', 'full'):
+        for table in tables:
+            if table['headers'][-2:] != ['% success', '% failure']:
+                continue
+            out.labels.append('bylabels-group-table')
+            for row in table['rows']:
+                shown = row[-1][0].replace('\xa0', ' ')
+                try:
+                    failing = int(shown.split('/')[0]) > 0
+                except ValueError:
+                    continue
+                marked = any(hlt for _text, hlt in row)
+                if failing != marked:
+                    out.failures.append(Failure(
+                        'detail_rows', f'C12/group_rows/{"unmarked-failing" if failing else "marked-passing"}'
+                        f'/verb={verb}',
+                        f'label group {[t for t, _h in row[:-2]]} shows {shown!r} failures and is '
+                        f'{"" if marked else "not "}highlighted ({rep}, {verb})'))
+                    break
+
     # ---- (b) detailed dataset tables
     if kind in DS_KINDS and not failed_eval and rep in ('table', 'fulltable', 'full'):
         if kind in ('bonferroni', 'holm'):
